@@ -51,7 +51,9 @@ TECHNIQUE = "Lean 4 proof over storage-naming model + differential correspondenc
 ROOT = "/snap/c05"
 KNOWN_SIGS = {"suffix-alias", "dot-component", "dotdot-component", "empty-component"}
 
-SAFE = ["a", "b", "c/d", "%", "x y", 1, 2, "10", "k", "w%2Fz", "é", "a_b", "a_x0", "_0", "0_"]
+# "w/z" next to "w%2Fz", "c/d" next to "c%2Fd", "%" next to "%25": sibling keys that differ only by what escaping does to them
+# (seed C05-H: an escape fast path that leaves '%' alone when the key has no '/')
+SAFE = ["a", "b", "c/d", "%", "x y", 1, 2, "10", "k", "w%2Fz", "é", "a_b", "a_x0", "_0", "0_", "w/z", "c%2Fd", "%25"]
 ADV = ["..", ".", "", "a", "a_0", "a_0_0", "a_1", "b", "b_0", "%2F", "/", "a/b", "a%2Fb", "..%2F", "a_", "a__0", 0]
 
 
@@ -142,7 +144,9 @@ def _check_case_in(ctx: Ctx, case: Dict[str, Any], suite: str, world):
             Snapshot.async_take(path, app, pg=pg, replicated=case["replicated"]).wait()
         else:
             Snapshot.take(path, app, pg=pg, replicated=case["replicated"])
-        return {k: flatten(v.sd, prefix=k)[1] for k, v in app.items()}
+        # the leaves a rank saved, by the harness's OWN walk of the state (escaping included): taking them from the
+        # library's flatten would make manifest completeness blind to two leaves flatten maps to one path (seed C05-H)
+        return {k: _ref_leaf_paths(v.sd, k) for k, v in app.items()}
 
     if case.get("pre_states"):
         # an earlier snapshot (committed or abandoned) at the same path left LONGER objects at the same locations
@@ -397,6 +401,29 @@ def _enlarge(d):
                 go(v)
     go(d)
     return d
+
+
+def _ref_escape(s: str) -> str:
+    return s.replace("%", "%25").replace("/", "%2F")
+
+
+def _ref_leaf_paths(obj, prefix: str):
+    """Reference for the logical leaf paths of `flatten(obj, prefix)`: lists and (Ordered)dicts whose keys are all str/int
+    with distinct str() are containers, '%' and '/' inside a key are escaped, everything else is a leaf."""
+    from collections import OrderedDict
+    out = []
+
+    def walk(o, path):
+        if type(o) == list:
+            for i, e in enumerate(o):
+                walk(e, f"{path}/{i}")
+        elif type(o) in (dict, OrderedDict) and all(isinstance(k, (str, int)) for k in o) and len({str(k) for k in o}) == len(o):
+            for k, e in o.items():
+                walk(e, f"{path}/{_ref_escape(str(k))}")
+        else:
+            out.append(path)
+    walk(obj, _ref_escape(prefix))
+    return out
 
 
 def _gen_case(rng, keys, adversarial: bool) -> Dict[str, Any]:
